@@ -15,6 +15,14 @@ CLAIMS = {
          "Per-operation atomicity of every non-iterating operation of pkg/sync.Map and pkg/cache.Cache is proved structurally: each operation's accesses to the guarded map lie in one critical section of the one RWMutex (or it delegates to exactly one such operation), callbacks run in the documented lock context, Range callbacks only compare-and-act, and the expiry predicate/uses are the identity on live entries. With the meta-theorem 'single-critical-section operations on one lock linearize in acquisition order' this is the linearizability claim for those operations on every interleaving, which no finite set of schedules can show.",
          TRUST + "Meta-theorem and sync.RWMutex semantics are assumed, not checked. Range's whole-iteration atomicity is excluded by design (documented weakly consistent).",
          "DESIGN.md §4 C14"),
+ "C01": ("other", "abstract interpretation of encoder→decoder composition per extension class (linear forms through abstract byte buffers, bit provenance for header layouts) + CFG dominance / sibling-arm agreement / value-flow rules",
+         "Structural necessary conditions of the round trip are decided for every value of each class rather than for sampled messages: the option delta/length extension classes and the stream length classes are shown to compose to the identity through the bytes actually written (extendOpt→marshalOptionHeaderExt→parseExtOpt, getHeader→DecodeHeader), header byte layouts are shown by bit provenance, size computation and writing are shown to share one code path, destination slices are never extended, and validation dominates the first write. Full message equality after a round trip needs execution and is explicitly not claimed.",
+         TRUST + "Abstract transfer functions trusted. Known finding D18 (types 4..255 accepted) is listed in known_findings.json.",
+         "DESIGN.md §4 C01"),
+ "C02": ("other", "in-range obligations for every index/slice on wire bytes discharged from dominating guards + slice arithmetic + verified callee summaries (cursor/counter lock-step analysis), abstract interpretation of the stream header parser on symbolic buffers, literal-table evaluation",
+         "Panic-freedom and progress of the decoders are decided on every path: each index, slice and fixed-width read on attacker-controlled bytes is shown in range (89 obligations), consumed-byte counters are shown to stay in lock-step with the cursor (so callers can slice by them), loops are shown to progress, the stream header parser is abstractly interpreted for every buffer length 0..16 with fully symbolic content (no wrap, no lossy cast, only documented outcomes), accepted tokens are at most 8 bytes, option numbers accumulate over dropped options, the pooled entry point copies its input, and the option registries equal the RFC tables. Agreement with a reference parser on every string and canonicalisation need execution and are not claimed.",
+         TRUST + "bytes.Buffer.Len()==len(Bytes()) between two calls without intervening buffer mutation is assumed in the stream re-framing loop.",
+         "DESIGN.md §4 C02"),
  "C19": ("proof", "abstract interpretation of the codec on go/ssa (intervals × per-bit provenance × linear forms) over symbolic inputs + constant-table evaluation",
          "The whole statement is decided for the whole domain without enumerating it: DecodeBlockOption/EncodeBlockOption are abstractly interpreted on symbolic 24-/32-bit inputs; acceptance/refusal is shown per input cell on every abstract path and the results' bits are shown to be exactly the RFC 7959 fields (so the two functions are mutual inverses), with no wrap or lossy conversion on the legal domain; the SZX size table is evaluated from the literal, shown single-writer, and BERT sizing is shown to be floor(max/1024)*1024.",
          TRUST + "The abstract transfer functions (sound for Go fixed-width integers) are trusted. BERT sizing for max < 1024 is outside the claim.",
